@@ -27,7 +27,9 @@ func init() {
 			"batch for the registration maps; (b2) intruder (-race): one case per forged certificate list (12 kinds x replayed/fresh ClientHello random) presented by a peer without the secret - built only from what a recording relay saw of a genuine session - to a pending AcceptWithContext, to ServerWithContext, and as forged acceptor to ClientWithContext/DialWithContext, each listener attempt followed by a genuine control dial on the same pending Accept; " +
 			"(c) stream: one case = (stack, max message size, message-size/heartbeat sequence, stream ending, read-size sequence, reader mode), 'messages then " +
 			"error' cases on the server stack repeated 20x with the reader started only after the receive loop has closed; exhaustive for max size 3 and sequences up to length 2 (quick) / 4 " +
-			"(thorough), seeded otherwise; (d) flow: one case per scripted slow-network scenario, the bound is asserted inside every stream.Write; (e) heartbeat: one case per loss scenario. " +
+			"(thorough), seeded otherwise; (c2) deadline: one case per real session established with context.WithTimeout(1.5 s) (net.Pipe, UDP sockets, Listener; straight and deployed DTLS/SCTP role assignment; deadline on both / one end) that must still carry tagged data both ways after that deadline passed; " +
+			"(c3) sustained: one case per session (in-memory msgStream pair and real pion SCTP over net.Pipe / UDP below the real heartbeat + SCTPConn layers, heartbeat intervals scaled to 400 ms / 1200 ms) in which the SCTP opener, the acceptor or both write without a pause (or in bursts with pauses around Interval/4 and Interval) for more than 3 heartbeat timeouts, followed by a silence-plus-swallowed-heartbeats control; " +
+			"(d) flow: one case per scripted slow-network scenario, the bound is asserted inside every stream.Write; (e) heartbeat: one case per loss scenario. " +
 			"distinct_nontrivial: (b2) attempts that reached the peer's certificate verification (listener attempts: and whose control succeeded); (b) established sessions whose tag exchange ran in both directions, and batches with at least one cancellation; (c) case descriptors with >= 2 data messages " +
 			"reaching the reader and a heartbeat, a terminal error or a read smaller than a message; (d) scenarios in which at least one write had to wait; (e) scenarios in which at least " +
 			"one heartbeat was consumed before the loss",
@@ -38,7 +40,7 @@ func init() {
 			"flow-control bound asserted: buffered + len <= writeMax + writeMax/2 (a waiting writer may be released by one stale wake-up token; see NOTES_c16.md for the derivation)",
 		},
 		Stages: []Stage{
-			{Name: "stream", Pkg: "./pkg/dtls", Run: "^TestVerifC16(Deadline|Stream|Flow|Heartbeat|Creds|Handshake)", Drivers: []string{"dtls"}, TimeoutQ: 10 * time.Minute, TimeoutT: 40 * time.Minute},
+			{Name: "stream", Pkg: "./pkg/dtls", Run: "^TestVerifC16(Sustained|Deadline|Stream|Flow|Heartbeat|Creds|Handshake)", Drivers: []string{"dtls"}, TimeoutQ: 10 * time.Minute, TimeoutT: 40 * time.Minute},
 			{Name: "listener-race", Pkg: "./pkg/dtls", Run: "^TestVerifC16Listener", Drivers: []string{"dtls"}, Race: true, RaceFilter: inDTLS, TimeoutQ: 10 * time.Minute, TimeoutT: 40 * time.Minute},
 			{Name: "real", Pkg: "./pkg/dtls", Run: "^TestVerifC16Real", Drivers: []string{"dtls"}, ThoroughOnly: true, TimeoutT: 40 * time.Minute},
 		},
